@@ -9,6 +9,7 @@ UNDECIDED (never a silent pass).
 from __future__ import annotations
 
 import ast
+import os
 from fractions import Fraction
 
 from .nf import (
@@ -1342,12 +1343,25 @@ def _np_hstack(ex, args, kwargs, node):
     raise Undecided("np.hstack of operands of unknown rank", node)
 
 
-@model("numpy.zeros_like")
+@model("numpy.zeros_like", "numpy.empty_like")
 def _np_zeros_like(ex, args, kwargs, node):
+    # the prototype gives the dtype (and the shape, unless shape= overrides it): for integer-typed data the new array is an
+    # integer array.  A dtype that is not known statically (the data's own) is None: "taken from an argument"
     v = _arr(ex, args[0], node)
     dkw = _kw(args, kwargs, 1, "dtype")
-    dt = v.dtype if dkw is None or isinstance(dkw, NoneV) else _dtype_of(dkw)
-    a = ex.new_array(("zeros",), v.shape, dt or "float", node)
+    explicit = not (dkw is None or isinstance(dkw, NoneV))
+    def _from_caller(x, depth=0):
+        # the prototype is (a view / conversion of) data handed in by the caller: its dtype is the caller's choice
+        if not isinstance(x, Num) or depth > 8:
+            return False
+        if x.meta.get("foreign") or x.meta.get("normalised") or is_raw(x.meta.get("alias_of")):
+            return True
+        return any(_from_caller(x.meta.get(k_), depth + 1) for k_ in ("alias_of", "index_of", "reshaped_from", "col_of"))
+
+    dt = _dtype_of(dkw) if explicit else (None if _from_caller(v) else v.dtype)
+    skw = kwargs.get("shape")
+    shape = _shape_from(skw, node) if skw is not None and not isinstance(skw, NoneV) else v.shape
+    a = ex.new_array(("zeros",), shape, dt if (explicit or dt is None) else (dt or "float"), node)
     a.like = v
     return ex.arr_value(a)
 
